@@ -1,6 +1,7 @@
 /- line-protocol driver of the `Ops` engine (C09, C10): `Barril/Model/Ops.lean` over the generated POSC table -/
 import Barril.Model.Proto
 import Barril.Model.Ops
+import Barril.Model.OpsRegistry
 import Barril.Gen.Dbs
 open Lean Barril Barril.Proto Barril.Ops
 
@@ -221,9 +222,68 @@ def parseElemText (j : Json) : Except String ElemText := do
 
 def natsJ (xs : List Nat) : Json := Json.arr (xs.map (fun n => Json.num (JsonNumber.fromNat n))).toArray
 
+def parseNatJ (j : Json) : Except String Nat :=
+  match j with
+  | .str s => match s.toNat? with
+    | some n => .ok n
+    | none => .error s!"not a class tag: {s}"
+  | _ => .error "class tag expected as a string"
+
+def parseClass (j : Json) : Except String PyClass := do
+  pure ⟨← getSym j "tag", ← (← getArr j "bases").toList.mapM parseNatJ⟩
+
+def parseRegEntry (j : Json) : Except String RegEntry := do
+  let cls ← getSym j "cls"
+  match ← getStr j "fn" with
+  | "std" => pure ⟨cls, .std⟩
+  | "scaled" => pure ⟨cls, .scaled (← getRat j "k")⟩
+  | f => throw s!"bad conversion function {f}"
+
+/-- the two-step history of the registry cases: the registry as it is after import (`base`), then the
+registrations `regs` through `RegisterAdditionalConversionType` -/
+def parseRegistry (j : Json) : Except String Registry := do
+  let base ← (← getArr j "base").toList.mapM parseRegEntry
+  let regs ← (← getArr j "regs").toList.mapM parseRegEntry
+  pure (Registry.registerAll base regs)
+
 def handleOne (j : Json) : Except String Json := do
   let op ← getStr j "op"
   match op with
+  | "regbinop" =>
+    -- registrations, then `Array op Array` on the database that has them
+    let reg ← parseRegistry j
+    let ndc ← parseClass (← j.getObjVal? "ndc")
+    let f ← parseOpName (← getStr j "f")
+    let a ← parseOperand (← j.getObjVal? "a")
+    let b ← parseOperand (← j.getObjVal? "b")
+    match a, b with
+    | .array q1 k1 xs, .array q2 k2 ys =>
+      let r := arrayOpArrayReg theEnv reg ndc f q1 k1 xs q2 k2 ys
+      let outMag := match r with
+        | .ok o => maxAbs ((o.values?).getD [])
+        | .error _ => 0
+      let mag := maxR (maxR (maxAbs xs) (maxAbs ys)) outMag + matchErr f a b
+      let res := outJ mag r
+      match f, arrayOpArrayReg theEnv reg ndc .div q1 k1 xs q2 k2 ys with
+      | .floordiv, .ok o =>
+        match o.values? with
+        | some vs => pure (res.setObjVal! "pre" (ratsJ vs))
+        | none => pure res
+      | _, _ => pure res
+    | _, _ => throw "regbinop: two Array operands expected"
+  | "reggetvalues" =>
+    let reg ← parseRegistry j
+    let ndc ← parseClass (← j.getObjVal? "ndc")
+    let c ← getSym j "c"
+    let u ← getSym j "u"
+    let k ← parseKind (← getStr j "kind")
+    let vs ← parseRats j "vs"
+    let to ← getSym j "to"
+    match arrayGetValuesReg theEnv reg (kindClass ndc k) c u k vs to with
+    | .error e => pure (errJ e)
+    | .ok (k', ws) =>
+      pure (Json.mkObj [("ok", Json.mkObj [("kind", .str (kindStr k')), ("vs", ratsJ ws),
+        ("M", ratJ (maxR (maxAbs vs) (maxAbs ws)))])])
   | "rdiv" =>
     -- `self.__rdiv__(other)` called directly
     let a ← parseOperand (← j.getObjVal? "self")
@@ -277,7 +337,17 @@ def handleOne (j : Json) : Except String Json := do
       | .error _ => 0
     -- `outJ` takes the maximum with the result magnitude; fold everything in beforehand
     let mag := maxR (maxR (maxAbs (operandValues a)) (maxAbs (operandValues b))) outMag + matchErr f a b
-    let res := outJ mag r
+    -- a Scalar of a captioned unknown unit (field `cap` of the operand) with a plain number: the caption of the result
+    let capA ← getOptSym (← j.getObjVal? "a") "cap"
+    let capB ← getOptSym (← j.getObjVal? "b") "cap"
+    let cap : Option Sym := match a, b, capA, capB with
+      | .scalar .., .num .., some c, _ => some (scalarNumCaption c a b f)
+      | .num .., .scalar .., _, some c => some (scalarNumCaption c a b f)
+      | _, _, _, _ => none
+    let res0 := outJ mag r
+    let res := match cap, r, res0.getObjVal? "ok" with
+      | some c, .ok (.scalar ..), .ok okJ => res0.setObjVal! "ok" (okJ.setObjVal! "cap" (symJ c))
+      | _, _, _ => res0
     -- for `//` also the exact quotients before the floor (the harness needs them to recognise
     -- quotients that are integers up to float rounding)
     match f, binop theEnv defers .div a b with
